@@ -18,4 +18,9 @@ c_Orders == {"le"}
 c_PropNames == {}
 c_PropVals == {}
 c_Forbidden == {"nometa-first", "same-unseen", "type-change"}
+\* string slice: the byte size in a string channel's index may change while the value count stays the same
+c_TypeSetStr == {"String"}
+c_WidthStr == [t \in {"String"} |-> 6]
+c_UnsizedStr == {"String"}
+c_ObjListsStr == {<<A>>, <<A, B>>, <<B, A>>}
 ====
